@@ -818,7 +818,8 @@ NoStaleRead == "StaleRead" \notin viol
 \* committed entries are on a majority of the voters' durable logs (C04, static membership)
 CommittedDurable ==
   MaxCfg > 0 \/ \A i \in DOMAIN comm :
-    Cardinality({n \in InitVoters : HasIdx(ns[n].log, i) /\ At(ns[n].log, i) = comm[i]}) * 2 > Cardinality(InitVoters)
+    \* (an entry covered by a node's newest snapshot is on that node's disk as well)
+    Cardinality({n \in InitVoters : i <= ns[n].snap.idx \/ (HasIdx(ns[n].log, i) /\ At(ns[n].log, i) = comm[i])}) * 2 > Cardinality(InitVoters)
 
 TypeOK ==
   /\ \A n \in Node : ns[n].term \in 0..MaxTerm /\ ns[n].role \in {"F", "P", "C", "L", "D"}
